@@ -117,6 +117,35 @@ def raised(x):
     return isinstance(x, Raised)
 
 
+def _empty(obj):
+    if isinstance(obj, dict):
+        for v in obj.values():
+            _empty(v)
+        obj.clear()
+    elif isinstance(obj, list):
+        for v in obj:
+            _empty(v)
+        obj.clear()
+
+
+def attempt_owned(fails, sig, fn, *args, **kwargs):
+    """attempt(), plus a call-history relation for functions that return dicts / lists: the caller owns what it is handed,
+    so the first result is emptied (recursively) and the same call made again must return the same value. Returns a deep
+    copy of the first result; a difference is recorded in `fails` under `sig`."""
+    import copy
+
+    r = attempt(fn, *args, **kwargs)
+    if raised(r) or not isinstance(r, (dict, list, tuple)):
+        return r
+    snap = copy.deepcopy(r)
+    for part in r if isinstance(r, tuple) else (r,):
+        _empty(part)
+    again = attempt(fn, *args, **kwargs)
+    if raised(again) or again != snap:
+        fails.add(sig, f"second call returned {again!r}"[:300])
+    return snap
+
+
 # ---------------------------------------------------------------- case encoding helpers
 
 
